@@ -158,7 +158,8 @@ PROFILES.update({
     "term": {"max_age": 0.3, "killover": 0.6, "Gs": [0.0, 0.2, 0.3, 0.5, 0.8], "stop_children": True, "stop_signal": True, "fork": 0.15, "stubborn": 0.5,
              "cmds": ["stop", "kill", "decr", "restart", "reload", "signal"], "instant": 0.2},
     "acct": {"watchers": 3, "badnb": 0.05, "hooks": ["before_spawn", "after_spawn", "before_start", "after_start"], "faults": 0.3,
-             "kcall_deaths": 0.6, "cmds": ["start", "stop", "incr", "decr", "kill", "restart", "list", "numprocesses"],
+             "kcall_deaths": 0.6, "die_untracked": 0.3,
+             "cmds": ["start", "stop", "incr", "decr", "kill", "restart", "list", "numprocesses", "rm"],
              "norespawn": True},
     "overlap": {"Gs": [0.2, 0.3, 0.5, 1.0], "cmds": ["kill", "kill", "signal", "stop", "restart", "reload", "start", "incr", "decr", "decr", "set_np", "status", "list",
                          "numprocesses", "get", "globaloptions", "listsockets", "options", "stats"], "stubborn": 0.6, "partial": 0.5, "steps": 20},
@@ -227,7 +228,10 @@ def directory(seed, conf=False):
                         props.pop("match")
             s.append({"op": "req", "cmd": cmd, "props": props})
         elif r < 0.8:
-            s.append({"op": "die", "sel": [n or "a", rng.randint(0, 2)], "status": rng.choice(scenario.EXIT_STATUSES)})
+            if released and rng.random() < 0.5:
+                s.append({"op": "die", "untracked": rng.randint(0, 3), "status": rng.choice(scenario.EXIT_STATUSES)})
+            else:
+                s.append({"op": "die", "sel": [n or "a", rng.randint(0, 2)], "status": rng.choice(scenario.EXIT_STATUSES)})
         else:
             s.append({"op": "tick", "n": rng.randint(1, 5)})
         if rng.random() < 0.35:
